@@ -1036,10 +1036,14 @@ class HttpPayloadParser:
                         i = chunk.find(CHUNK_EXT, 0, pos)
                         if i >= 0:
                             size_b = chunk[:i]  # strip chunk-extensions
-                            # Verify no LF in the chunk-extension
-                            if b"\n" in (ext := chunk[i:pos]):
+                            # Verify no LF or bare CR in the chunk-extension
+                            ext = chunk[i:pos]
+                            if SEP == b"\n":  # lax: the line's own CR is still attached
+                                ext = ext.rstrip(b"\r")
+                            if b"\n" in ext or b"\r" in ext:
+                                bad = "LF" if b"\n" in ext else "CR"
                                 exc = TransferEncodingError(
-                                    f"Unexpected LF in chunk-extension: {ext!r}"
+                                    f"Unexpected {bad} in chunk-extension: {ext!r}"
                                 )
                                 set_exception(self.payload, exc)
                                 raise exc
